@@ -19,6 +19,7 @@ type c08Case struct {
 	BadAt  int
 	BadID  int
 	BadFin bool
+	D      Delivery
 }
 
 func (c *c08Case) report() (*RaceM, *RaceM) {
@@ -40,7 +41,7 @@ func c08Oracle(c c08Case) error {
 	s := c.S
 	s.Items = []Item{{Race: printed, After: c.S.Items[0].After, NoEOL: c.S.Items[0].NoEOL}}
 	x := s.Bytes()
-	in := bytes.NewReader(x)
+	in := c.D.reader(x)
 	var prefix bytes.Buffer
 	snap, suffix, err := stack.ScanSnapshot(in, &prefix, plainOpts())
 	rest, _ := io.ReadAll(in)
@@ -76,8 +77,8 @@ var c08 = Check[c08Case]{
 	Gen: func(t *rapid.T) c08Case {
 		o := StreamOpts{MinItems: 1, MaxItems: 1, NoDump: true,
 			Race: RaceOpts{MaxOps: 4, MaxFrames: 12, Args: true},
-			Junk: JunkOpts{MaxLines: 4, Binary: true, Long: thorough()}}
-		c := c08Case{S: genStream(t, o), BadAt: -1}
+			Junk: JunkOpts{MaxLines: 4, Binary: true, Long: true}}
+		c := c08Case{S: genStream(t, o), BadAt: -1, D: genDelivery(t)}
 		if oneIn(t, 5, "orphanSection") {
 			r := c.S.Items[0].Race
 			c.BadAt = rapid.IntRange(0, len(r.Secs)).Draw(t, "badAt")
@@ -137,8 +138,11 @@ var c08 = Check[c08Case]{
 		if len(r.Ops) > 2 {
 			cl = append(cl, "ops_gt_2")
 		}
+		if c.D.Chunk > 0 {
+			cl = append(cl, "chunked_delivery")
+		}
 		printed, _ := c.report()
-		return Obs{Nontrivial: deep && (!inOrder || subset) && after, Digest: digestBytes(c.S.Pre, printed.Print(), c.S.Items[0].After), Classes: cl, Sample: quoteShort(append(append([]byte{}, c.S.Pre...), append(printed.Print(), c.S.Items[0].After...)...))}
+		return Obs{Nontrivial: deep && (!inOrder || subset) && after, Digest: digestBytes(c.S.Pre, printed.Print(), c.S.Items[0].After, []byte(fmt.Sprint(c.D))), Classes: cl, Sample: quoteShort(append(append([]byte{}, c.S.Pre...), append(printed.Print(), c.S.Items[0].After...)...))}
 	},
 }
 
